@@ -294,6 +294,37 @@ Section Model.
     let w' := vaxpy w (fneg Op (rnd32 Op (c_lr c))) P in
     (w', mkS fs invs dg coreig gv filt M', qs).
 
+  (* the search direction of the step (same computation as in [block_step], which moves the block by
+     -rnd32(lr) times it) *)
+  Definition block_direction (c : cfg) (t : Z) (h : hints) (dims : list nat) (answers : list mat)
+             (w : vec) (st : bstate) (g0 : vec) : vec :=
+    let order := length dims in
+    let g := l2_grad c w g0 in
+    let fs := update_factors c dims g (s_factors st) in
+    let bc2 := bias_corr2 (c_biascorr c) (c_beta2 c) t (h_bc2 h) in
+    let '(invs, dg, qs) :=
+      if perform_amortized c t then refresh c order bc2 fs (s_inv st) (s_isdiag st) answers
+      else (s_inv st, s_isdiag st, []) in
+    let coreig := match c_kind c with
+                  | KSoap => ema_sq (c_beta2 c) (s_coreig st) (soap_rotate c dims invs g)
+                  | KShampoo => s_coreig st
+                  end in
+    let gv := graft_update c (s_graft st) g in
+    let '(ghat, filt) := filter_grad c t h (s_filt st) g in
+    let st1 := mkS fs invs dg coreig gv filt (s_mom st) in
+    let P :=
+      if use_grafting_method c t then graft_precond c t h gv ghat
+      else
+        let Ps := shampoo_precond c dims bc2 st1 ghat in
+        match c_graft c with
+        | GNone => Ps
+        | _ => let ng := norm2 (graft_precond c t h gv ghat) in
+               let ns := add (norm2 Ps) graft_eps in
+               vscale (div ng ns) Ps
+        end in
+    let P := if nz (c_wd c) && c_decoupled c then vaxpy P (c_wd c) w else P in
+    fst (momentum_step c (s_mom st) P).
+
   (* ------------------------------------------------------------------ the group step *)
   Record block := mkB { b_dims : list nat; b_w : vec; b_st : bstate }.
   Record binput := mkI { i_grad : option vec; i_answers : list mat }.
